@@ -1,9 +1,15 @@
 HOOK_COMMITS = ["0cc1f16"]
-FIX_COMMITS = ["f6ef902", "7953ad1", "5a73e74", "74bd988", "162c4e5", "d681b06", "d1e67ed", "f178a91", "418e2ff", "882956a", "d9c0ebc", "11b0018", "91d1a50", "a9847ff", "743a30c", "d549723", "3e1966b"]
+FIX_COMMITS = ["f6ef902", "7953ad1", "5a73e74", "74bd988", "162c4e5", "d681b06", "d1e67ed", "f178a91", "418e2ff", "882956a", "d9c0ebc", "11b0018", "91d1a50", "a9847ff", "743a30c", "d549723", "3e1966b", "816a010", "7ee2a7b", "bd3a255"]
 NOTES = "All checks: bin/check <ID> --tier quick|thorough [--replay file]; exit 0/1/2 (2 = TOOL-ERROR). See DESIGN.md."
 NOT_APPLICABLE = {}
 _EVAL_NOTE = "Program-level values of 32/64-bit types are restricted to magnitude < 2^30 (TLC integers); runs outside the modelled fragment are counted as out_of_model and not judged. The typed AST is the checker's (parser desugarings such as <= and op-assignment are already applied), so duplicated evaluation introduced by the parser is not visible in this direction. Trusted: the projection typed AST -> JSON (harness/src/proj.rs), JSON value -> Literal conversion, TLC."
 CHECKS = {
+    "C07": {
+        "text": "Scanner.tla models the scanner's loops as a state machine over an abstract alphabet and TLC checks totality as an invariant for all strings up to the bound (the scanner without end-of-input exit in the block-comment loop is the refuted negative control); every model string, every single-token edit (TLC-enumerated: prefix, delete, duplicate, swap, substitute / insert ~78 token spellings at every position) of corpus and generated programs and of literal texts, and random token soup / bytes are run through scan, parse, check, compile, prettify and the argument parser in supervised worker processes with a deadline; every run is an event judged by Trace_FrontEnd.tla (OutcomeOK).",
+        "design_ref": "DESIGN.md §5 C07",
+        "note": "Only the scanner's loop structure is modelled as a state machine; the parser is exercised through the enumerated perturbations, not modelled. Deadline 6 s per input; after 12 hangs/crashes in one batch the remaining inputs of that batch are not run (counted in the evidence). Deep nesting and very large inputs are outside the explored space. The token splitter used to cut corpus programs is the harness's own.",
+        "technique": "TLA+ state machine of the scanner checked by TLC; TLC-enumerated perturbation space replayed into the front end; TLC trace validation of the outcomes",
+    },
     "C06": {
         "text": "HashOrder.tla models the hash-map iteration sites of the compiler with the iteration order as a nondeterministic choice and TLC checks OrderIndependence of what is emitted (with the superseded order-dependent schemes as refuted negative controls); order-sensitive program shapes, corpus programs and generated programs are compiled repeatedly in fresh threads and several processes with both option settings, and every compilation is validated by Trace_Determinism.tla (a state machine that remembers the first digest per key).",
         "design_ref": "DESIGN.md §5 C06",
